@@ -309,6 +309,10 @@ func runCheck(repo, verifDir, prop, tier, evidence string, timeout int, verbose 
 		"SMT solvers: z3 4.8.12, z3 5.1.0 (z3-new), cvc5 1.0.x",
 		"machine assumption: no object larger than 2^48 bytes; integers: exact wrap-around semantics in int mode, bit-vectors in bv mode",
 		"spec functions denote the same mathematical function in both arithmetic modes (only constant shifts/masks are used in int mode)",
+		"concurrency: sequentially consistent atomics and mutex happens-before; interference = havoc of monitor-protected fields under the declared guarantee/rely at every synchronisation point; goroutine bodies started with go are verified as functions of their own, not as part of the spawner",
+		"range over a map: each iteration yields a present key not yielded before, the loop ends when all were yielded; the map is assumed not to be modified by the loop body",
+		"immutable field declarations are decided by a syntactic scan of the package's SSA (no unsafe/reflect writes)",
+		"front-end obligations (contract:resolves, site-reached, ghost-reached, wake-all, immutable) are decided by the generator, not by a solver",
 	}
 	for _, e := range externs {
 		trusted = append(trusted, "extern contract (assumed): "+e)
@@ -432,6 +436,12 @@ func verifyOldCodec(repo, verifDir string) ([]*FuncResult, string) {
 	}
 	defer os.RemoveAll(dir)
 	os.WriteFile(filepath.Join(dir, "codec.contracts"), []byte(sb.String()), 0o644)
+	// the released reader's own contract and the step-agreement lemma (kept under /verif: that code is not in /repo)
+	if rb, err := os.ReadFile(filepath.Join(verifDir, "contracts", "v0.0.17", "reader.contracts")); err == nil {
+		os.WriteFile(filepath.Join(dir, "reader.contracts"), rb, 0o644)
+	} else {
+		return nil, "C18: cannot read contracts/v0.0.17/reader.contracts"
+	}
 	oldDir := filepath.Join(repo, "internal", "backcompat", "oldservice")
 	p, err := LoadProgram(oldDir, []string{"storj.io/drpc/drpcwire"}, map[string]string{
 		"storj.io/drpc/drpcwire": dir, "*": filepath.Join(verifDir, "contracts", "std")})
@@ -452,7 +462,7 @@ func verifyOldCodec(repo, verifDir string) ([]*FuncResult, string) {
 		}
 	}
 	var out []*FuncResult
-	for _, name := range []string{"ReadVarint", "AppendVarint", "ParseFrame", "AppendFrame", "(ID).Less"} {
+	for _, name := range []string{"ReadVarint", "AppendVarint", "ParseFrame", "AppendFrame", "(ID).Less", "(*Reader).ReadPacket"} {
 		fc := p.CS.Funcs["storj.io/drpc/drpcwire."+name]
 		if fc == nil {
 			return nil, "C18: codec contract for " + name + " not found in the extracted text"
@@ -465,6 +475,15 @@ func verifyOldCodec(repo, verifDir string) ([]*FuncResult, string) {
 			o.Replay = nil
 		}
 		out = append(out, r)
+	}
+	for _, l := range p.CS.Lemmas {
+		if l.Name == "L.readerStepAgree" {
+			r := p.VerifyLemma(l)
+			for _, o := range r.Obls {
+				o.Props = nil
+			}
+			out = append(out, r)
+		}
 	}
 	return out, ""
 }
